@@ -3,7 +3,7 @@
 From Coq Require Import List Bool.
 From Coq Require Import NArith Arith.
 From Carquet Require Import Base.Res Gen.Dispatch_gen Gen.Intrinsics_gen Simd.DispatchModel Simd.DispatchProofs.
-From Carquet Require Import Simd.Vec Simd.ScalarKernels Simd.SseKernels Simd.Avx2Kernels Simd.Avx512Kernels Simd.BssProofs Simd.SeqProofs Simd.MemProofs Simd.LevelProofs.
+From Carquet Require Import Simd.Vec Simd.ScalarKernels Simd.SseKernels Simd.Avx2Kernels Simd.Avx512Kernels Simd.BssProofs Simd.SeqProofs Simd.MemProofs Simd.LevelProofs Simd.PackProofs.
 Import ListNotations.
 
 (** Dispatcher: for EVERY capability set (any list of features) and every slot of the dispatch table
@@ -186,3 +186,21 @@ Theorem avx512_memcpy_kernel_eq_scalar : forall n src out0,
   length src = n -> length out0 = n -> exists out, avx512_memcpy n src out0 = Ok out /\ scalar_memcpy n src out0 = Ok out.
 Proof. exact avx512_memcpy_eq_scalar. Qed.
 Print Assumptions avx512_memcpy_kernel_eq_scalar.
+
+(** pack_bools.  Domain of the SSE and AVX2 variants: input bytes are 0 or 1 ([bools01], as sse_ops.c documents);
+    the AVX-512 variant agrees with the scalar definition on every input. *)
+Theorem sse_pack_bools_kernel_eq_scalar : forall count inp out0,
+  length inp = count -> bools01 inp -> length out0 = (count + 7) / 8 ->
+  exists out, sse_pack_bools count inp out0 = Ok out /\ scalar_pack_bools count inp out0 = Ok out.
+Proof. exact sse_pack_bools_eq_scalar. Qed.
+Print Assumptions sse_pack_bools_kernel_eq_scalar.
+Theorem avx2_pack_bools_kernel_eq_scalar : forall count inp out0,
+  length inp = count -> bools01 inp -> length out0 = (count + 7) / 8 ->
+  exists out, avx2_pack_bools count inp out0 = Ok out /\ scalar_pack_bools count inp out0 = Ok out.
+Proof. exact avx2_pack_bools_eq_scalar. Qed.
+Print Assumptions avx2_pack_bools_kernel_eq_scalar.
+Theorem avx512_pack_bools_kernel_eq_scalar : forall count inp out0,
+  length inp = count -> length out0 = (count + 7) / 8 ->
+  exists out, avx512_pack_bools count inp out0 = Ok out /\ scalar_pack_bools count inp out0 = Ok out.
+Proof. exact avx512_pack_bools_eq_scalar. Qed.
+Print Assumptions avx512_pack_bools_kernel_eq_scalar.
